@@ -2,7 +2,7 @@
 from harness import dispatch_prog as D
 
 PROPERTY = 'C04'
-LABELS = ['C04.values', 'C04.deferred', 'C04.once', 'C04.order', 'C04.oldnew', 'C04.type', 'C04.visible', 'C04.queued_deferred']
+LABELS = ['C04.update_ctx_restores', 'C04.values', 'C04.deferred', 'C04.once', 'C04.order', 'C04.oldnew', 'C04.type', 'C04.visible', 'C04.queued_deferred']
 EXPLANATION = ("Harness c04.prog: programs of k symbolic operations over set a/b/e, update(a,b), trigger, and ENTER/EXIT opcodes for "
                "batch_call_watchers, discard_events and update-as-context (arbitrary nestings up to depth 2), with 2 watchers of "
                "symbolic configuration, run on a real object and on the reference dispatcher (statement semantics: deferred while "
@@ -23,6 +23,42 @@ def prog(k: int, n1: int, oc1: bool, qd1: bool, pr1: int, kw1: bool, n2: int, oc
     wc = [(n1, oc1, qd1, pr1, kw1), (n2, oc2, qd2, pr2, kw2)]
     ops = [(o1, x1), (o2, x2), (o3, x3), (o4, x4), (o5, x5)][:k]
     D.run('C04', ops, wc, OPS, False)
+
+
+def dynctx(inb: bool, v: int, w: int, nested: bool) -> None:
+    """`with p.param.update(...)` restores the previous values also when a previous value is a dynamic generator or a link."""
+    import param
+    from param.parameterized import batch_call_watchers
+    from sx.api import check, untraced, pickbool
+
+    class Src(param.Parameterized):
+        v = param.Integer(default=1)
+
+    class Q(param.Parameterized):
+        n = param.Number(default=0)
+        x = param.Integer(default=0, allow_refs=True)
+        y = param.Integer(default=0)
+    with untraced():
+        gen = lambda: 5
+        s = Src()
+        q = Q(n=gen, x=s.param.v)
+    inb, nested = pickbool(inb), pickbool(nested)
+    cm = None
+    if inb:
+        cm = batch_call_watchers(q)
+        cm.__enter__()
+    with q.param.update(n=v, x=w, y=v):
+        if nested:
+            with q.param.update(n=w):
+                pass
+        check('C04.update_ctx_restores', q.y == v and q.x == w, {'inside': True})
+    if cm is not None:
+        cm.__exit__(None, None, None)
+    info = {'in_batch': inb, 'nested': nested}
+    check('C04.update_ctx_restores', q.param.get_value_generator('n') is gen and q.n == 5, dict(info, what='dynamic value'))
+    check('C04.update_ctx_restores', q.y == 0, dict(info, what='plain value'))
+    s.v = 9
+    check('C04.update_ctx_restores', q.x == 9, dict(info, what='link'))
 
 
 def _ranges(consts):
@@ -68,6 +104,7 @@ def shards(tier):
             for o3 in (D.DISCARD_ENTER, D.BATCH_ENTER):
                 c = dict(k=4, n1=0, n2=2, o1=D.BATCH_ENTER, o2=o2, o3=o3, kw1=False, kw2=False, o5=0, x5=0, qd1=False, qd2=False)
                 out.append(dict(name='nest_o%d_%d' % (o2, o3), module='harness.c04', fn='prog', consts=c, budget_s=60))
+    out.append(dict(name='dynctx', module='harness.c04', fn='dynctx', consts={}, budget_s=60))
     return out
 
 
